@@ -384,7 +384,7 @@ def stream_print_parse(ctx, parser):
                     '(= what C01.parseScript_printExpr proves the text-level parser MODEL returns); oracle: reference lowering in '
                     'Python; non-trivial = printable (C01.SourcePrintable) and contains a block statement')
     progs = [progen.assign_fids(copy.deepcopy(p)) for p in PRINT_CORPUS]
-    for _ in range(ctx.scale(300, 8000)):
+    for _ in range(ctx.scale(300, 4000)):
         gen = progen.Gen(rng, max_depth=rng.choice([2, 3, 4, 5]), allow_raw=True)
         progs.append(progen.assign_fids(decorate(gen.program(), rng)))
     reqs = []
@@ -409,7 +409,15 @@ def stream_print_parse(ctx, parser):
         st.case(text, nontrivial=any(k in kinds for k in ('if', 'while', 'for', 'for-index', 'func')), tags=kinds)
         ctx.compare('print-parse', text, impl, progen.round_script_numbers(lo.get('spec')))
         ctx.compare('print-parse-mirror', text, impl, progen.round_script_numbers(lo.get('mirror')))
+        # the indented layout of the same program (C01.parseScript_printPretty_printExpr)
+        try:
+            impl_pretty = progen.canon_script(parser.parse_script(pr.get('pretty')), with_fid=False)
+        except Exception as exc:  # pylint: disable=broad-except
+            impl_pretty = {'error': f'{type(exc).__name__}: {getattr(exc, "error", exc)}'}
+        ctx.compare('print-parse-pretty', pr.get('pretty'), impl_pretty, progen.round_script_numbers(lo.get('spec')))
         want = expected_model(prog)
+        if impl_pretty != want and impl == want:
+            ctx.witness('print-parse-lowering', {'text': pr.get('pretty'), 'prog': prog}, want, impl_pretty, explained_by_f7=False)
         if impl != want:
             ctx.witness('print-parse-lowering', {'text': text, 'prog': prog}, want, impl, explained_by_f7=False)
     if n_printable * 10 < len(progs) * 9:
